@@ -23,12 +23,13 @@ from .. import runner
 
 ID = 'C18'
 LEVEL = 'exploration'
+QUICK_SCALE = 2      # the quick tier was enlarged by this factor after MIN_OBS['quick'] was measured
 TOL = 1e-6            # "same virtual instant or the next loop step"
 SAME = 1e-9           # two things happen at the same virtual instant
 HORIZON = 110.0       # virtual seconds after T0 in which every scripted deadline lies
 PSEUDO_DEADLINE = 4.0  # anchor used for "deadline" steps that target a request without a timer
 ARRIVE_LAT = 0.125    # exactly representable one-way latency for replies that must ARRIVE at an instant
-N_RANDOM = {'quick': 760, 'thorough': 40000}
+N_RANDOM = {'quick': 1800, 'thorough': 40000}
 
 RULE = (
     "One case = one simulated world (real SoulSeekClient 'me' logged in to the scripted server, scripted peers bob and "
